@@ -319,6 +319,16 @@ def parseLine (vs : Vars F) (toks : List (Tok F)) : Except Err (Ast F × Vars F)
     | .error e => .error e
     | .ok (ast, _) => .ok (ast, vs)
 
+/-- the name a line assigns to: the tokens in front of `=`, when the line has an `=` -/
+def lineName (toks : List (Tok F)) : Option (List (Tok F)) :=
+  if toks.any (fun t => t.isOpOf .assign) then some (assignParts toks).1 else none
+
+/-- an admissible variable name: non-empty, no pattern-field token, not a single variable token
+    (hypothesis of the termination theorem of the variable loop, see SCP/VarInvariant.lean) -/
+def nameOKb (name : List (Tok F)) : Bool :=
+  !name.isEmpty && name.all (fun r => match r with | .field _ => false | _ => true) &&
+    (match name with | [.var _] => false | _ => true)
+
 /-- outcome of one line, as `ExecuteLine.result` (the output text is produced separately) -/
 inductive LineRes (F : Type)
   | ok (v : Val F)
@@ -349,5 +359,11 @@ def evalTokens (c : Cfg F) (vs : Vars F) (infos : List (TokInfo F)) :
 def evalInfos (c : Cfg F) (lang : String) (now : Now) (vs : Vars F) (infos : List (TokInfo F)) :
     Vars F × Option (LineRes F × List (TokInfo F) × List (Tok F)) :=
   evalTokens c vs (rewriteInfos c lang now vs infos)
+
+/-- is the name the line assigns to admissible, in the session state the line meets? -/
+def lineOKb (c : Cfg F) (lang : String) (now : Now) (vs : Vars F) (infos : List (TokInfo F)) : Bool :=
+  match lineName (postProcess (rewriteInfos c lang now vs infos)) with
+  | some n => nameOKb n
+  | none => true
 
 end SC
